@@ -299,8 +299,11 @@ def run_check(pid, tier, seed):
         "wall_s": round(time.time() - t0, 3),
         "violations": len(violations),
     }
-    os.makedirs(os.path.join(VERIF, "evidence"), exist_ok=True)
-    with open(os.path.join(VERIF, "evidence", f"{pid}.json"), "w") as f:
+    # VERIF_EVIDENCE_DIR: where the evidence goes when the run is not one of record (the maintenance scripts that run the checks against a scratch
+    # checkout with a seeded change set it, so that evidence/ keeps the files of the last run against /repo itself)
+    evdir = os.environ.get("VERIF_EVIDENCE_DIR") or os.path.join(VERIF, "evidence")
+    os.makedirs(evdir, exist_ok=True)
+    with open(os.path.join(evdir, f"{pid}.json"), "w") as f:
         json.dump(jsonable(ev), f, indent=1)
 
     for l in out_lines:
